@@ -52,9 +52,9 @@ def lookupsOf (g : Spec) (b : BDNA) : J :=
         ("named", .arr (named.map fun (k, v) => .arr [.str k, lvToJ v])),
         ("ids", .arr ((decisionIds g).map .str)),
         ("items", .arr (g.dps.map fun dp =>
-          .arr ([optLvToJ (getItemDp byId dp), optLvToJ (getItem byId named (renderId dp.id))] ++
+          .arr ([optLvToJ (getItemDp byId dp), optLvToJ (getItemFixed byId named (renderId dp.id))] ++
             (match dp.name with
-             | some nm => [optLvToJ (getItem byId named nm)]
+             | some nm => [optLvToJ (getItemFixed byId named nm)]
              | none => []))))]
 
 def optsGrid : List Opts :=
